@@ -33,6 +33,9 @@ def factory(prop):
     if prop == "C16":
         from engines.bytes_buffered import BufferedCheck
         return BufferedCheck()
+    if prop == "C17":
+        from engines.bytes_tls import TLSCheck
+        return TLSCheck()
     raise SystemExit(f"unknown property {prop}")
 
 
